@@ -744,7 +744,7 @@ def r4_fresh_name_generator(ctx, rid):
                               f"`{norm(st)}` discards the label that {mname} actually used and goes on with the requested one "
                               f"({', '.join(tpls) or '?'}); that name is neither a singleton nor protected by a reserved sub-string, so "
                               f"when a variable of that name exists the caller addresses the wrong node", facts)
-    ctx.require(n_sites >= 8, f"{rid}: only {n_sites} call sites of add_var/add_op resolved (11 on the pinned tree)")
+    ctx.require(n_sites >= 8, f"{rid}: only {n_sites} call sites of add_var/add_op resolved (12 on the pinned tree)")
 
 
 def _label_consistency(ctx, m, key: str) -> Optional[str]:
